@@ -2,8 +2,9 @@
 and tier (in parallel lanes with separate target dirs), maps results to obligations."""
 import json, os, threading, time
 from concurrent.futures import ThreadPoolExecutor
+import framework  # sets VERIF_ROOT before kani_runner reads it
 import kani_runner
-from framework import Obligation, Violation, TARGET
+from framework import Obligation, Violation, TARGET, VERIF
 
 
 def select(prop, tier):
@@ -49,8 +50,8 @@ def run(rep, prop, tier, max_parallel=4, only=None):
                 pass
             path = None
             if play:
-                os.makedirs('/verif/replay', exist_ok=True)
-                path = f'/verif/replay/kani_{h["crate"]}_{h["harness"]}.rs'
+                os.makedirs(VERIF + '/replay', exist_ok=True)
+                path = f'{VERIF}/replay/kani_{h["crate"]}_{h["harness"]}.rs'
                 open(path, 'w').write(play)
             rep.violation(Violation(prop, f'kani:{h["harness"]}', f'Kani harness {h["crate"]}::{h["harness"]} failed: {failed} ({h.get("asserts", "")[:200]})', path or r.get('log'), True))
             rep.add(Obligation(name, 'violated', failed[:400]))
